@@ -60,10 +60,36 @@ def run_scripts(chk, scripts, label, monitor="TraceDelivery", env=None):
     """Execute scripts on real sockets and validate the trace. Returns list of (scen, code, line)."""
     inp = os.path.join(chk.wd, "%s.in" % label)
     out = os.path.join(chk.wd, "%s.trace" % label)
-    vlib.write_ndjson(inp, scripts)
-    rc, o, dt = vlib.sh([vlib.ZV, "run", "--in", inp, "--out", out], timeout=1800)
-    if rc != 0:
-        raise vlib.ToolError("zv run failed rc=%d:\n%s" % (rc, o[-3000:]))
+    # the engine process may die (abort / stack overflow in the code under test) or be blocked for good (exit 3 from its watchdog):
+    # both are data, attributed to the scenario that was running; the remaining scenarios are run in a fresh process
+    todo, part, dt, k = list(scripts), 0, 0.0, 0
+    hangs = []
+    with open(out, "w") as allout:
+        while todo:
+            part += 1
+            pin, pout = inp + ".%d" % part, out + ".%d" % part
+            vlib.write_ndjson(pin, todo)
+            rc, o, d = vlib.sh([vlib.ZV, "run", "--in", pin, "--out", pout], timeout=1800)
+            dt += d
+            done = open(pout).read() if os.path.exists(pout) else ""
+            allout.write(done)
+            if rc == 0:
+                break
+            ndone = done.count('"ev":"end"')
+            bad = todo[ndone] if ndone < len(todo) else todo[-1]
+            hangs.append((bad, "hang" if rc == 3 else "abort", o[-300:]))
+            todo = todo[ndone + 1:]
+            if len(hangs) > 20:
+                break
+    for bad, kind, tail in hangs:
+        chk.violation("%s/process-%s" % (chk.pid, kind), {"what": "the process running the scenarios %s while executing this scenario" % ("blocked for good (no progress for 15 s)" if kind == "hang" else "died"),
+                                                          "sock": bad.get("sock"), "scenario": bad.get("scen"), "tail": tail}, {"kind": "engine", "script": bad, "monitor": monitor})
+    if hangs:
+        # renumber the concatenated trace
+        rows = [json.loads(x) for x in open(out) if x.strip()]
+        for i, r in enumerate(rows):
+            r["i"] = i + 1
+        vlib.write_ndjson(out, rows)
     # events the monitor declares irrelevant (its Ignored set) are filtered out before TLC reads the file; "line" in a
     # violation report refers to the filtered file, which is kept next to the full trace
     ign = IGNORED.get(monitor, set())
